@@ -32,7 +32,8 @@ LD = [(None, "LdNone"), ("\n", "LdLF"), ("\r", "LdCR"), ("\r\n", "LdCRLF"), ("an
 LDN = dict((n, v) for v, n in LD)
 DELIMS = {"LdNone": [""], "LdLF": ["\n"], "LdCR": ["\r"], "LdCRLF": ["\r\n"], "LdAny": ["\n", "\r", "\r\n"]}
 ALPHA = "ab\r\n"
-SPECIALS = ["\ufeff", "\x00", "\u2028", "\x85", "\x1a", "\t", " ", "\x0c", "\x0b", "\x1c", "\U0001d11e", "\ufffe"]
+SPECIALS = ["\ufeff", "\x00", "\u2028", "\x85", "\x1a", "\t", " ", "\x0c", "\x0b", "\x1c", "\U0001d11e", "\ufffe",
+            "%", "{", "\\", "'"]      # characters that formatting a message about them may stumble over
 
 
 def impl(ldn, widths, text):
